@@ -1,10 +1,15 @@
 """C08 — Planck radiance, brightness temperature and spectral units are consistent.
 
 Tie: translator (lean/numeric/GenReal/Em.lean regenerated from /repo each run; theorems
-Proofs/Props/C08.lean re-checked) + Float cross-run + longdouble expm1/log1p oracle on the real code.
+Proofs/Props/C08.lean and Proofs/Props/C08Complex.lean re-checked) + Float cross-run + longdouble
+expm1/log1p oracle on the real code.  The complex-refractive-index branch of snell / fresnel is the
+second translation `snell_c` / `fresnel_c` (spec variant "c"): cross-run per component against
+em.snell / em.fresnel, oracle = complex Snell law (Re sqrt(m^2 - sin^2)) computed independently.
 """
+import cmath
 import json
 import math
+import os
 
 import numlib
 import vlib
@@ -15,7 +20,8 @@ FUNCS = ["planck", "planck_wavelength", "planck_wavenumber", "rayleighjeans", "r
          "wavelength2frequency", "wavelength2wavenumber", "wavenumber2frequency", "wavenumber2wavelength",
          "perfrequency2perwavelength", "perwavelength2perfrequency", "perfrequency2perwavenumber",
          "perwavenumber2perfrequency", "snell", "fresnel"]
-NEEDED = ["Em." + n for n in FUNCS]
+NEEDED = ["Em." + n for n in FUNCS] + ["Em.snell_c", "Em.fresnel_c"]
+COMPLEX_PROPS = "Proofs/Props/C08Complex.lean"
 H, K, C = 6.62607015e-34, 1.380649e-23, 299792458.0
 EPS = 2.220446049250313e-16
 
@@ -41,6 +47,145 @@ def gen_fT(rng):
         x = H * f / (K * T)
         if 1e-6 <= x <= 600:
             return f, T, x
+
+
+def complex_ref(n1, n2c, th):
+    """independent reference for the complex branch of snell (Born & Wolf / Liou): the real angle of the
+    planes of constant phase, tan(theta2) = sin(theta1) / Re sqrt(m^2 - sin^2 theta1), m = n2/n1.
+    Returns (theta2 [deg], cos(theta2), tolerance [deg], nan_ok)."""
+    sin1 = math.sin(math.radians(th))
+    m = n2c / n1
+    z = m * m - sin1 * sin1
+    q = abs(cmath.sqrt(z).real)
+    nr2 = sin1 * sin1 + q * q
+    t2 = math.degrees(math.atan2(sin1, q))
+    c2 = q / math.sqrt(nr2)
+    # rounding of x = sin1/Nr in the code: cancellation factor K of (mr2 - mi2 + s2) + sqrt(...)
+    mr2, mi2, s2 = m.real ** 2, m.imag ** 2, sin1 * sin1
+    big = abs(mr2 - mi2 + s2) + math.sqrt((mr2 - mi2 - s2) ** 2 + 4 * mr2 * mi2)
+    K = max(1.0, big / (2 * nr2))
+    # ... and of the reference itself: cancellation in Re z near the critical angle
+    K = max(K, (mr2 + mi2 + s2) / max(abs(z), 1e-300))
+    err_x = 64 * EPS * K
+    if c2 * c2 > 8 * err_x:
+        return t2, c2, 1e-7 + math.degrees(2 * err_x / c2), False
+    # total-reflection limit (theta2 within sqrt(eps) of 90 deg): arcsin is evaluated at 1 -+ rounding,
+    # the code returns 90 or NaN ("NaN beyond total reflection")
+    return t2, c2, 1e-7 + math.degrees(2 * math.sqrt(2 * err_x) + c2), True
+
+
+def gen_complex(rng):
+    """(n1, n2re, n2im, theta1, kind): deliberate corners first, then random ones"""
+    n1 = numlib.loguniform(rng, 0.5, 4.0)
+    n2re = numlib.loguniform(rng, 0.5, 4.0)
+    kind = rng.choice(["tiny-imag", "tiny-imag", "weak", "strong", "metal", "dense-n1"])
+    if kind == "tiny-imag":
+        n2im = 1e-12
+    elif kind == "weak":
+        n2im = numlib.loguniform(rng, 1e-9, 1e-3)
+    elif kind == "strong":
+        n2im = numlib.loguniform(rng, 1e-3, 3.0)
+    elif kind == "metal":
+        n2re, n2im = rng.choice([(0.2, 3.0), (0.2, 3.0), (numlib.loguniform(rng, 0.2, 1.0), numlib.loguniform(rng, 2.0, 6.0))])
+    else:                                   # n1 > Re n2: beyond the critical angle of the real part
+        n2re = n1 * rng.uniform(0.2, 0.95)
+        n2im = rng.choice([1e-12, numlib.loguniform(rng, 1e-9, 1e-1), numlib.loguniform(rng, 1e-3, 3.0)])
+    th = rng.choice([0.0, 90.0, 90.0 - 10 ** rng.uniform(-9, -1), rng.uniform(85.0, 90.0), rng.uniform(0, 90), rng.uniform(0, 90)])
+    return n1, n2re, n2im, th, kind
+
+
+def explore_complex(ck, n, em, np, calls, xrun):
+    """complex n2 = n2re + i n2im (Im > 0): real code vs the independent complex Snell law, |R| <= 1,
+    normal incidence; cross-run of the translated variant snell_c / fresnel_c (appended to `calls`)"""
+    rng = ck.rng
+    fixed = [(1.0, 0.2, 3.0, 0.0, "metal"), (1.0, 0.2, 3.0, 90.0, "metal"), (1.0, 0.2, 3.0, 89.999999, "metal"),
+             (2.0, 1.5, 1e-12, 10.0, "tiny-imag"), (2.0, 1.5, 1e-12, 80.0, "dense-n1"), (2.0, 1.5, 1e-12, 90.0, "dense-n1"),
+             (1.0, 1.5, 1e-12, 90.0, "tiny-imag"), (1.0, 1.33, 1e-3, 60.0, "weak"), (1.5, 1.0, 0.5, 89.9, "dense-n1"),
+             (1.0, 3.0, 4.0, 0.0, "strong")]
+    for i in range(n + len(fixed)):
+        n1, n2re, n2im, th, kind = fixed[i] if i < len(fixed) else gen_complex(rng)
+        n2c = complex(n2re, n2im)
+        carg = [n1, [n2re, n2im], th]
+        t2_ref, c2_ref, tol, nan_ok = complex_ref(n1, n2c, th)
+        with np.errstate(all="ignore"):
+            t2 = float(np.real(em.snell(n1, n2c, th)))
+            Rv, Rh = em.fresnel(n1, n2c, th)
+            Rv, Rh = complex(Rv), complex(Rh)
+        angle = "theta=0" if th == 0.0 else "theta=90" if th == 90.0 else "theta>85" if th > 85 else "theta<=85"
+        ck.case(key=("cx", n1, n2re, n2im, th), kind=f"complex/{kind}/{angle}" + ("/limit" if nan_ok else ""),
+                sample={"n1": n1, "n2": [n2re, n2im], "theta1": th, "theta2": t2, "theta2_ref": t2_ref})
+        if math.isnan(t2):
+            if not nan_ok:
+                ck.violation("other", f"snell({n1!r},{n2c!r},{th!r}) = NaN although the complex Snell law gives {t2_ref!r} "
+                             f"(cos theta2 = {c2_ref:.3g}: not at the total-reflection limit)", {"fn": "snell", "args": carg})
+            ck.count("complex/NaN-at-limit")
+        elif abs(t2 - t2_ref) > tol:
+            ck.violation("other", f"snell({n1!r},{n2c!r},{th!r}) = {t2!r}, complex Snell law gives {t2_ref!r} (tolerance {tol:.3g})",
+                         {"fn": "snell", "args": carg})
+        bad = [nm for nm, R in (("Rv", Rv), ("Rh", Rh)) if not abs(R) <= 1 + 1e-9]
+        if bad and not (nan_ok and math.isnan(t2)):
+            ck.violation("other", f"fresnel({n1!r},{n2c!r},{th!r}): |Rv|={abs(Rv)!r}, |Rh|={abs(Rh)!r} exceed 1 / are NaN",
+                         {"fn": "fresnel", "args": carg})
+        if th == 0.0:
+            want = (n2c - n1) / (n2c + n1)
+            if abs(Rv - want) > 1e-13 or abs(Rh + want) > 1e-13 or abs(abs(Rv) - abs(Rh)) > 1e-13:
+                ck.violation("other", f"fresnel({n1!r},{n2c!r},0) = ({Rv!r},{Rh!r}); normal incidence requires Rv = -Rh = {want!r}",
+                             {"fn": "fresnel", "args": carg})
+        if xrun:
+            if nan_ok or c2_ref * c2_ref < 1e-6:
+                ck.count("xrun/skipped-total-reflection-limit")     # arcsin at 1 -+ 1 ulp: NaN / 90 decided by the last bit
+            else:
+                calls.append(("snell_c", (n1, n2re, n2im, th), t2))
+                calls.append(("fresnel_c", (n1, n2re, n2im, th), (Rv.real, Rv.imag, Rh.real, Rh.imag)))
+    # guards of the complex variant: the model's `_rejects` against what the real code raises
+    gcases = [(1.0, -0.5, 1.0, 10.0), (1.0, 0.0, 1.0, 10.0), (0.0, 1.5, 0.1, 10.0), (1.0, 1.5, -0.1, 10.0), (1.0, 1.5, 0.1, 10.0),
+              (1.0, 1.5, -1e-300, 10.0), (-1.0, 1.5, 0.1, 10.0)]
+    lines = []
+    for g in gcases:
+        lines += [f"{fn}!rejects " + " ".join(str(numlib.bits(a)) for a in g) for fn in ("snell_c", "fresnel_c")]
+    out = ck.driver(lines, exe="drv_em") if xrun else None
+    for j, (n1, n2re, n2im, th) in enumerate(gcases):
+        raised = []
+        for fn in (em.snell, em.fresnel):
+            try:
+                with np.errstate(all="ignore"):
+                    fn(n1, complex(n2re, n2im), th)
+                raised.append(False)
+            except Exception:
+                raised.append(True)
+        want_snell = n1 <= 0 or n2re <= 0
+        want_fres = n2im < 0 or want_snell          # fresnel calls snell after its own guard
+        if raised != [want_snell, want_fres]:
+            ck.violation("other", f"guards: snell/fresnel({n1!r},{complex(n2re, n2im)!r},{th!r}) raised {raised}, "
+                         f"expected {[want_snell, want_fres]}", {"fn": "guards", "args": [n1, [n2re, n2im], th]})
+        if out is not None:
+            ms = numlib.unbits(out[2 * j]) == 1.0 if out[2 * j] not in ("unknown", "bad-op") else None
+            mf = numlib.unbits(out[2 * j + 1]) == 1.0 if out[2 * j + 1] not in ("unknown", "bad-op") else None
+            if ms is None or mf is None:
+                ck.disagree("Float model has no guard snell_c!rejects / fresnel_c!rejects", {"fn": "guards"})
+            elif [ms, mf or ms] != raised:
+                ck.disagree(f"guards of the model ({ms}, {mf}) differ from the real code {raised} at {(n1, n2re, n2im, th)}",
+                            {"fn": "guards", "args": [n1, [n2re, n2im], th]})
+            ck.count("xrun/guards")
+    # complex dtype with Im n2 == 0 takes the all-real branch (np.isreal looks at values): same answers as for the float
+    # (fixed by /repo 983f0d9: TypeError from np.rad2deg of a complex arcsin)
+    for _ in range(max(n // 10, 5)):
+        n1 = rng.uniform(1.0, 2.0)
+        n2 = rng.uniform(1.0, 3.0)
+        th = rng.choice([0.0, 30.0, rng.uniform(0, 90)])
+        case = {"fn": "snell-complex-dtype-zero-imag", "args": [n1, [n2, 0.0], th]}
+        ck.case(key=("snell-cz", n1, n2, th), kind="snell/complex-dtype-zero-imag")
+        try:
+            with np.errstate(all="ignore"):
+                a, b = em.snell(n1, complex(n2, 0.0), th), em.snell(n1, n2, th)
+                ra, rb = em.fresnel(n1, complex(n2, 0.0), th), em.fresnel(n1, n2, th)
+                arr = em.snell(n1, np.array([complex(n2, 0.0), complex(n2 + 0.5, 0.0)]), th)
+        except TypeError as e:
+            ck.violation("snell-complex-dtype-zero-imag", f"snell/fresnel({n1!r}, {complex(n2, 0.0)!r}, {th!r}) raised TypeError: {str(e)[:80]}", case)
+            continue
+        same = lambda u, v: (np.isnan(u) and np.isnan(v)) or abs(complex(u) - complex(v)) <= 1e-12 * max(1.0, abs(complex(v)))
+        if not (same(a, b) and same(ra[0], rb[0]) and same(ra[1], rb[1]) and same(np.asarray(arr).ravel()[0], b)):
+            ck.violation("snell-complex-dtype-zero-imag", f"complex-typed n2 = {complex(n2, 0.0)!r} gives snell {a!r} / fresnel {ra!r}, float n2 gives {b!r} / {rb!r}", case)
 
 
 def explore(ck, n, em, np, xrun=True):
@@ -152,7 +297,9 @@ def explore(ck, n, em, np, xrun=True):
         if not extra:
             pl = np.asarray(em.planck_wavelength(lam, T))
             x = H * f_grid / (K * T)
-            if np.max(np.abs(pl - perm) / np.abs(perm) - (1e-12 + 60 * EPS / x[::-1])) > 0:
+            xr = x[::-1]
+            dom = (xr >= 1e-6) & (xr <= 600)      # the property's range of h f / k T (beyond it planck is denormal / underflows)
+            if dom.any() and np.max((np.abs(pl - perm) / np.abs(perm) - (1e-12 + 60 * EPS / xr))[dom]) > 0:
                 ck.violation("other", "perfrequency2perwavelength(planck) is not planck_wavelength on the converted grid", {"fn": "density-maps-planck", "args": [f_grid.tolist(), T]})
         pwn, wn = em.perfrequency2perwavenumber(spec.copy(), f_grid.copy())
         b2, f2 = em.perwavenumber2perfrequency(pwn, wn)
@@ -241,17 +388,21 @@ def explore(ck, n, em, np, xrun=True):
             ck.violation("other", f"snell accepted non-positive index {bad}", {"fn": "snell", "args": [bad[0], bad[1], 10.0]})
         except Exception:
             pass
+    explore_complex(ck, max(n // 2, 20), em, np, calls, xrun)
     if xrun:
         numlib.float_cross(ck, calls, exe="drv_em")
 
 
 def main():
-    ck = vlib.Check(PROP, pkg="numeric", props="Proofs.Props.C08", driver="drv_em",
-                    lemma_files=["Proofs/Lemmas/Consts.lean"], model_files=["GenReal/Em.lean", "GenReal/Constants.lean"],
+    ck = vlib.Check(PROP, pkg="numeric", props="Proofs.Props.C08", more_props=["Proofs.Props.C08Complex"], driver="drv_em",
+                    lemma_files=["Proofs/Lemmas/Consts.lean", "Proofs/Lemmas/SnellComplex.lean"],
+                    model_files=["GenReal/Em.lean", "GenReal/Constants.lean"],
                     trusted=["tools/py2lean (translator), validated each run by the Float cross-run against numpy",
                              "floating-point cancellation in exp(x)-1 / log(1+1/x) is validated over x in [1e-6, 600] with a conditioning-scaled tolerance, not proved",
                              "spectral-density converters: the pointwise Jacobian is proved; array reversal/reshape is glue exercised by the harness (1-D and multi-dimensional spectra)",
-                             "complex refractive index n2 (|R| <= 1) is validated numerically only; the proved Fresnel/Snell theorems are for real indices"],
+                             "complex refractive index n2: translated as the variant snell_c / fresnel_c (np.isreal(n2) decided False: the code path for "
+                             "Im n2 != 0; real dialect = Mathlib's field of complex numbers, float dialect = TF.Cplx with textbook product and Smith's division "
+                             "as CPython's complex type / numpy complex128, promoted mixed operands), cross-run per component against em.snell / em.fresnel"],
                     assumptions=["1e8 Hz <= f <= 1e15 Hz, 2 K <= T <= 1e4 K with 1e-6 <= h f / k T <= 600; 0 <= theta1 <= 90 deg"])
     ck.rule = ("log-uniform (f, T) with x = hf/kT in [1e-6, 600], ascending positive grids for the density converters incl. multi-dimensional "
                "spectra, random real / complex refractive indices and angles incl. 0, 90, Brewster, beyond total reflection; "
